@@ -839,6 +839,16 @@ def _case_json(c):
     return {k: v for k, v in c.items() if not k.startswith("_")}
 
 
+def drift(ck, dist, kind, cj):
+    """Model and implementation disagree on an input OUTSIDE the hygiene
+    hypothesis (where neither the theorems nor the model's claim apply, e.g.
+    the result depends on dict iteration order): evidence only, no alarm."""
+    dist["drift_outside_hypothesis:" + kind] += 1
+    ck.notes.setdefault("drift_outside_hypothesis", [])
+    if len(ck.notes["drift_outside_hypothesis"]) < 5:
+        ck.notes["drift_outside_hypothesis"].append({"kind": kind, "case": cj})
+
+
 def classify(ck, rows, errs, dist):
     known_ids = {k.get("id") for k in ck.known}
     for r in rows:
@@ -872,18 +882,20 @@ def classify(ck, rows, errs, dist):
                                     "staging raises instead of substituting (stream %s)" % stream)
                 dist["known:K4a"] += 1
                 if not r.get("chk_corr", True):
-                    ck.mismatch("model and implementation disagree on a K4a input", cj, model_text(r["model"]))
+                    drift(ck, dist, "K4a", cj)
                 continue
             if not r.get("hyg", True) and "K4b" in known_ids:
                 ck.known_hit("K4b", "token text that arises from substituted values (inside a value or at a "
                                     "junction) is substituted again by a later replace or survives (stream %s)" % stream)
                 dist["known:K4b"] += 1
                 if not r.get("chk_corr", True):
-                    ck.mismatch("model and implementation disagree on a K4b input", cj, model_text(r["model"]))
+                    drift(ck, dist, "K4b", cj)
                 continue
             ck.violation("C09_ok is false on the implementation's texts (no listed known-finding signature)", cj)
             continue
-        if not r.get("chk_corr", True):
+        if not r.get("chk_corr", True) and not r.get("hyg", True):
+            drift(ck, dist, "non-hygienic", cj)
+        elif not r.get("chk_corr", True):
             ck.mismatch("model and implementation disagree", cj,
                         "model: " + model_text(r["model"]) + "\nimpl: " + json.dumps(obs, default=str)[:3000])
     for e in errs:
